@@ -4,10 +4,11 @@
    every list of lines; the lexical layer is tied to the real parser by correspondence on printed diagrams
    and proved here for every documented line form and EVERY component name / alias / arrow label
    (C06_lex_*: tokens separated by single blanks; [is_name]: non-empty, word characters and dots).
-   Still partial: runs of blanks / indentation and the tag slicing are covered by evaluation on instances
-   (C06_lexical_forms_partial) and by correspondence only. *)
+   Tag slicing: C06_text_outside_tags_ignored / _no_tags_rejected / _no_end_tag_rejected (texts whose only '@' are the tags).
+   Still partial: runs of blanks / indentation, and texts with further '@' characters or repeated tags, are covered by
+   evaluation on instances (C06_lexical_forms_partial) and by correspondence only. *)
 From Coq Require Import List Bool NArith Permutation.
-From PTA Require Import Sx Names Search Label Puml LabelProofs DiagramProofs PumlLexProofs.
+From PTA Require Import Sx Names Search Label Puml LabelProofs DiagramProofs PumlLexProofs PumlTagProofs.
 Import ListNotations.
 
 (* exactly the dependor -> dependee relation drawn, each end resolved through the alias table,
@@ -67,6 +68,23 @@ Theorem C06_lex_arrow : forall x y tx ty dir ar,
   lex_line (unwords [tx; ar; ty]) = if dir then PArrow x y else PArrow y x.
 Proof. exact lex_arrow. Qed.
 Print Assumptions C06_lex_arrow.
+
+(* ---- text level: tags ----
+   For texts in which '@' occurs only in the two tags: whatever stands before @startuml and after @enduml is ignored,
+   the content in between is split into lines and parsed; a text without '@', or with the start tag only, is rejected. *)
+Theorem C06_text_outside_tags_ignored : forall pre c post,
+  no_at pre -> no_at c -> no_at post -> c <> [] ->
+  parse_text (pre ++ STARTUML ++ c ++ ENDUML ++ post) = Some (parse_lines (map lex_line (split_lines c))).
+Proof. exact parse_text_between. Qed.
+Print Assumptions C06_text_outside_tags_ignored.
+
+Theorem C06_no_tags_rejected : forall s, no_at s -> parse_text s = None.
+Proof. exact parse_text_no_tags. Qed.
+Print Assumptions C06_no_tags_rejected.
+
+Theorem C06_no_end_tag_rejected : forall pre c, no_at pre -> no_at c -> parse_text (pre ++ STARTUML ++ c) = None.
+Proof. exact parse_text_no_end. Qed.
+Print Assumptions C06_no_end_tag_rejected.
 
 (* the lexical layer on one instance of every documented line form, dotted names included; text outside the tags
    ignored; a text without the tag pair rejected.  (Strings below are code points: "[src.a] --> [B]" etc.) *)
